@@ -96,6 +96,16 @@ def replay_case(arg):
         return fails, cnt
     id_as_string = bool(rng.integers(2))
     frame = make_frame(data, id_as_string, rng)
+    # the index of the frame carries no information (Controller: a dataset is a SEQUENCE of rows): default range index,
+    # permuted labels (a frame that was sorted or shuffled), labels with gaps (a filtered frame), string labels
+    ikind = (int(key, 16) // 11) % 4
+    if ikind == 1:
+        frame.index = rng.permutation(len(frame))
+    elif ikind == 2:
+        frame.index = 3 * np.arange(len(frame)) + 7
+    elif ikind == 3:
+        frame.index = ['row-%d' % (len(frame) - k) for k in range(len(frame))]
+    cnt['index_kind_%d' % ikind] = 1
     frame_in = frame.copy(deep=True)
     ids = [('id%d' % i) if id_as_string else str(i) for i in post['ids']]
     ems = [chi.GaussianErrorModel(), chi.ConstantAndMultiplicativeGaussianErrorModel()]
